@@ -49,6 +49,10 @@ impl Reg {
 pub trait Elem: Clone + Send + 'static {
     const KIND: i64;
     const TRACKED: bool;
+    /// for element types counted as a whole (zero-sized with destructor): instances alive right now
+    fn live_total() -> Option<i64> {
+        None
+    }
     fn make(id: u32, reg: &Arc<Reg>) -> Self;
     /// value the model expects to read back for an element made with `id`
     fn key(id: u32) -> u64;
@@ -90,6 +94,38 @@ impl Elem for Zst {
     const TRACKED: bool = false;
     fn make(_: u32, _: &Arc<Reg>) -> Self {
         Zst
+    }
+    fn key(_: u32) -> u64 {
+        0
+    }
+    fn read(&self) -> u64 {
+        0
+    }
+}
+
+/// Zero-sized element with a destructor: nothing to tell instances apart, but their number is known.
+pub struct ZDrop;
+static ZD_LIVE: std::sync::atomic::AtomicI64 = std::sync::atomic::AtomicI64::new(0);
+impl Clone for ZDrop {
+    fn clone(&self) -> Self {
+        ZD_LIVE.fetch_add(1, Ordering::SeqCst);
+        ZDrop
+    }
+}
+impl Drop for ZDrop {
+    fn drop(&mut self) {
+        ZD_LIVE.fetch_sub(1, Ordering::SeqCst);
+    }
+}
+impl Elem for ZDrop {
+    const KIND: i64 = 4;
+    const TRACKED: bool = false;
+    fn live_total() -> Option<i64> {
+        Some(ZD_LIVE.load(Ordering::SeqCst))
+    }
+    fn make(_: u32, _: &Arc<Reg>) -> Self {
+        ZD_LIVE.fetch_add(1, Ordering::SeqCst);
+        ZDrop
     }
     fn key(_: u32) -> u64 {
         0
@@ -322,6 +358,10 @@ fn check_all<T: Elem>(st: &State<T>, when: &str) -> VResult {
             let w = want.get(&id).copied().unwrap_or(0);
             vcheck!(live == w, "vec.elem_drop_mismatch", "element", "{}: element {} has {} live instance(s), the model expects {}", when, id, live, w);
         }
+    }
+    if let Some(live) = T::live_total() {
+        let want: i64 = st.slots.iter().flatten().map(|s| s.model.len() as i64).sum();
+        vcheck!(live == want, "vec.elem_drop_mismatch", "zero-sized element", "{}: {} zero-sized element(s) with destructor are alive, the vectors hold {}", when, live, want);
     }
     simcore::check_alloc("vec")
 }
@@ -644,7 +684,7 @@ impl Engine for VecEngine {
         let threads = rng.range(1, 3);
         p.set("pool", pool);
         p.set("threads", threads);
-        p.set("elem", rng.range(0, 3));
+        p.set("elem", rng.range(0, 4));
         p.set("policy", rng.range(0, 3));
         let max_steps = if rng.chance(1, 2) { rng.range(3, 10) } else { rng.range(10, if thorough { 60 } else { 40 }) };
         let mut w: Vec<u32> = vec![6, 16, 8, 10, 10, 4, 3, 6, 4];
@@ -691,11 +731,15 @@ impl Engine for VecEngine {
     }
 
     fn exec(&self, plan: &Plan, ctx: &mut RunCtx) -> VResult {
-        match plan.cfg("elem", 1).rem_euclid(4) {
+        match plan.cfg("elem", 1).rem_euclid(5) {
             0 => exec_t::<u8>(plan, ctx),
             1 => exec_t::<u64>(plan, ctx),
             2 => exec_t::<Zst>(plan, ctx),
-            _ => exec_t::<Droppy>(plan, ctx),
+            3 => exec_t::<Droppy>(plan, ctx),
+            _ => {
+                ZD_LIVE.store(0, Ordering::SeqCst);
+                exec_t::<ZDrop>(plan, ctx)
+            }
         }
     }
 }
